@@ -1,1 +1,418 @@
-//! C20 — IPC sidecars are invisible and safe to build concurrently (placeholder until built).
+//! C20 — IPC sidecars are invisible and safe to build concurrently.
+//!
+//! Builders and readers are real threads that stop at every park point of
+//! `ipc_cache` and are released one at a time by a seeded controller.  Some actors behave
+//! like threads of ANOTHER process (own pid for the staging directory, no shared
+//! in-process lock) and may be killed at any park point, leaving what a crashed process
+//! leaves.  Every reader's every query must equal the sidecar-off answer.
+
+use crate::cluster::runs::compare;
+use crate::cluster::world::fresh_dir;
+use crate::cluster::{outcome_of, Outcome};
+use crate::kit::datagen::{self, ColData, ColSpec, ParquetLayout, Table, Ty};
+use crate::kit::report::{RunOut, Tier, Violation};
+use crate::kit::rng::{fnv, Rng};
+use crate::kit::sqlgen::Stmt;
+use query_engine::verif::park::{self, Controller};
+use query_engine::ExecutionContext;
+use serde_json::{json, Value};
+use std::collections::{BTreeMap, BTreeSet};
+use std::path::{Path, PathBuf};
+use std::sync::{Arc, Condvar, Mutex};
+use std::time::Duration;
+
+fn viol(clause: &str, symptom: &str, features: Vec<String>, detail: String, context: Value) -> Violation {
+    Violation { clause: clause.into(), symptom: symptom.into(), features, detail, overrides: json!({}), context }
+}
+
+#[derive(Default)]
+struct CtlState {
+    parked: BTreeMap<u32, &'static str>,
+    released: Option<u32>,
+    done: BTreeSet<u32>,
+    kill: BTreeSet<u32>,
+    lock_holder: Option<u32>,
+    /// holder of the cross-process publish lock (flock)
+    publish_holder: Option<u32>,
+    live: BTreeSet<u32>,
+}
+
+struct Ctl {
+    m: Mutex<CtlState>,
+    cv: Condvar,
+}
+
+struct Killed;
+
+impl Controller for Ctl {
+    fn at(&self, actor: u32, site: &'static str) {
+        let mut s = self.m.lock().unwrap();
+        if !s.live.contains(&actor) {
+            return;
+        }
+        if site == "ipc.lock.after" {
+            s.lock_holder = Some(actor);
+        }
+        if site == "ipc.lock.dropped" && s.lock_holder == Some(actor) {
+            s.lock_holder = None;
+        }
+        if site == "ipc.build.publish_locked" {
+            s.publish_holder = Some(actor);
+        }
+        if site == "ipc.build.publish_unlocked" && s.publish_holder == Some(actor) {
+            s.publish_holder = None;
+        }
+        // a killed actor unwinds through the drop points: record the releases, never park
+        if std::thread::panicking() {
+            self.cv.notify_all();
+            return;
+        }
+        s.parked.insert(actor, site);
+        self.cv.notify_all();
+        loop {
+            if s.kill.contains(&actor) {
+                s.parked.remove(&actor);
+                drop(s);
+                std::panic::resume_unwind(Box::new(Killed));
+            }
+            if s.released == Some(actor) {
+                s.released = None;
+                s.parked.remove(&actor);
+                self.cv.notify_all();
+                return;
+            }
+            s = self.cv.wait(s).unwrap();
+        }
+    }
+}
+
+const QUERIES: &[&str] = &[
+    "SELECT g, COUNT(*) AS n, SUM(id) AS s FROM t GROUP BY g",
+    "SELECT id, g FROM t WHERE id >= 0",
+    "SELECT id FROM t",
+    "SELECT s, COUNT(*) AS n FROM t GROUP BY s",
+    "SELECT COUNT(*) AS n FROM t WHERE s = 'w1'",
+];
+
+fn sidecar_dir(p: &Path) -> PathBuf {
+    let mut name = p.file_name().unwrap().to_os_string();
+    name.push(".qeipc");
+    p.with_file_name(name)
+}
+
+/// While every actor is parked: a published sidecar that carries `.complete` holds every
+/// row-group file, complete and readable, with the footer's row counts.
+fn published_invariant(parquet: &Path, rg_rows: &[i64]) -> Result<bool, String> {
+    let dir = sidecar_dir(parquet);
+    if !dir.join(".complete").is_file() {
+        return Ok(false);
+    }
+    for (i, want) in rg_rows.iter().enumerate() {
+        let f = dir.join(format!("rg_{:05}.arrow", i));
+        let file = std::fs::File::open(&f).map_err(|e| format!("published sidecar has .complete but {} is missing: {e}", f.display()))?;
+        let r = arrow::ipc::reader::FileReader::try_new(file, None).map_err(|e| format!("{} is not a complete IPC file: {e}", f.display()))?;
+        let mut rows = 0i64;
+        for b in r {
+            rows += b.map_err(|e| format!("{}: {e}", f.display()))?.num_rows() as i64;
+        }
+        if rows != *want {
+            return Err(format!("{} holds {rows} rows, the footer says {want}", f.display()));
+        }
+    }
+    Ok(true)
+}
+
+struct ActorSpec {
+    id: u32,
+    foreign_pid: Option<u32>,
+    queries: Vec<usize>,
+}
+
+pub fn run_c20(_p: &str, tier: Tier, run_seed: u64, _ov: &Value) -> RunOut {
+    let mut rng = Rng::new(run_seed);
+    let mut out = RunOut::default();
+    let root = fresh_dir("sidecar");
+    let path = root.join("t.parquet");
+    // table: with dictionary-eligible strings (few or > 4096 distinct) or without
+    let rows = 40 + rng.usize(if tier == Tier::Thorough { 9000 } else { 1500 });
+    let string_kind = rng.below(3);
+    let t = Table {
+        name: "t".into(),
+        cols: vec![
+            ColSpec { name: "id".into(), ty: Ty::I64, nulls16: 0, unique: true },
+            ColSpec { name: "g".into(), ty: Ty::I64, nulls16: 0, unique: false },
+            ColSpec { name: "s".into(), ty: Ty::Str, nulls16: 2, unique: false },
+        ],
+        data: vec![
+            ColData::I64((0..rows as i64).map(Some).collect()),
+            ColData::I64((0..rows as i64).map(|i| Some(i % 7)).collect()),
+            ColData::Str((0..rows as i64).map(|i| if i % 8 == 0 { None } else { Some(match string_kind { 0 => format!("w{}", i % 3), 1 => format!("u{i}"), _ => format!("w{}", i % 5000) }) }).collect()),
+        ],
+        rows,
+    };
+    let n_rg_target = 1 + rng.usize(6);
+    let lay = ParquetLayout { file_cuts: vec![], row_group_rows: (rows / n_rg_target).max(1), dictionary: string_kind != 1 || rng.coin(), stats: 2, stem: "t".into(), same_name_dirs: false };
+    datagen::write_parquet_file(&t, 0, rows, &path, &lay).unwrap();
+    let rg_rows: Vec<i64> = crate::cluster::splits::footer_truth(&path).1.iter().map(|x| x.0).collect();
+
+    query_engine::verif::knobs::clear();
+    query_engine::verif::knobs::set("subquery.single_thread_runtime", 1);
+    // expected answers with sidecars off
+    query_engine::verif::knobs::set("ipc.mode", 0);
+    let expected: Vec<Outcome> = {
+        let pool = rayon::ThreadPoolBuilder::new().num_threads(1).build().unwrap();
+        let rt = tokio::runtime::Builder::new_current_thread().enable_all().build().unwrap();
+        pool.install(|| {
+            rt.block_on(async {
+                let mut ctx = ExecutionContext::new();
+                ctx.register_parquet("t", &path).unwrap();
+                let mut v = Vec::new();
+                for q in QUERIES {
+                    v.push(outcome_of(ctx.sql(q).await));
+                }
+                v
+            })
+        })
+    };
+    // initial conditions
+    let initial = *rng.pick(&["none", "none", "stale-sidecar", "dead-staging-dir", "fresh-sidecar"]);
+    let mode = if initial == "none" && rng.chance(1, 6) { 1 } else { 2 };
+    match initial {
+        "stale-sidecar" => {
+            let d = sidecar_dir(&path);
+            std::fs::create_dir_all(&d).unwrap();
+            std::fs::write(d.join(".complete"), "v1:0:0").unwrap();
+            std::fs::write(d.join("rg_00000.arrow"), b"garbage").unwrap();
+        }
+        "dead-staging-dir" => {
+            // what a builder killed mid-build leaves behind, under a pid that is reused
+            let d = sidecar_dir(&path).with_extension(format!("{}.building", 7001));
+            std::fs::create_dir_all(&d).unwrap();
+            std::fs::write(d.join("rg_00000.arrow"), b"half").unwrap();
+        }
+        "fresh-sidecar" => {
+            query_engine::verif::knobs::set("ipc.mode", 2);
+            let pool = rayon::ThreadPoolBuilder::new().num_threads(1).build().unwrap();
+            let rt = tokio::runtime::Builder::new_current_thread().enable_all().build().unwrap();
+            pool.install(|| {
+                rt.block_on(async {
+                    let mut ctx = ExecutionContext::new();
+                    ctx.register_parquet("t", &path).unwrap();
+                    let _ = ctx.sql(QUERIES[0]).await;
+                })
+            });
+        }
+        _ => {}
+    }
+    query_engine::verif::knobs::set("ipc.mode", mode);
+
+    // actors
+    let n_actors = 2 + rng.usize(if tier == Tier::Thorough { 5 } else { 3 });
+    let mut specs = Vec::new();
+    for i in 0..n_actors as u32 {
+        let foreign = rng.chance(1, 2);
+        let nq = 1 + rng.usize(2);
+        // live processes have distinct pids; the dead builder of the "dead-staging-dir"
+        // initial condition used pid 7001, which a live actor may have been given again
+        specs.push(ActorSpec { id: i, foreign_pid: if foreign { Some(7000 + i) } else { None }, queries: (0..nq).map(|_| rng.usize(QUERIES.len())).collect() });
+    }
+    let ctl = Arc::new(Ctl { m: Mutex::new(CtlState::default()), cv: Condvar::new() });
+    ctl.m.lock().unwrap().live = specs.iter().map(|a| a.id).collect();
+    park::attach(Some(ctl.clone() as Arc<dyn Controller>));
+    let results: Arc<Mutex<Vec<(u32, usize, Outcome)>>> = Arc::new(Mutex::new(Vec::new()));
+    let mut handles = Vec::new();
+    for a in &specs {
+        let (id, fp, queries) = (a.id, a.foreign_pid, a.queries.clone());
+        let path = path.clone();
+        let ctl = ctl.clone();
+        let results = results.clone();
+        handles.push(std::thread::spawn(move || {
+            let r = std::panic::catch_unwind(std::panic::AssertUnwindSafe(|| {
+                let pool = rayon::ThreadPoolBuilder::new().num_threads(1).build().unwrap();
+                pool.install(|| {
+                    park::set_actor(Some(id));
+                    park::set_foreign_pid(fp);
+                    park::point("actor.start");
+                    let rt = tokio::runtime::Builder::new_current_thread().enable_all().build().unwrap();
+                    rt.block_on(async {
+                        let mut ctx = ExecutionContext::new();
+                        match ctx.register_parquet("t", &path) {
+                            Ok(()) => {
+                                for qi in queries {
+                                    let o = outcome_of(ctx.sql(QUERIES[qi]).await);
+                                    results.lock().unwrap().push((id, qi, o));
+                                }
+                            }
+                            Err(e) => results.lock().unwrap().push((id, usize::MAX, Outcome::Err { class: "execution", msg: e.to_string() })),
+                        }
+                    });
+                    park::set_actor(None);
+                    park::set_foreign_pid(None);
+                })
+            }));
+            let killed = matches!(&r, Err(p) if p.is::<Killed>());
+            let mut s = ctl.m.lock().unwrap();
+            s.done.insert(id);
+            s.parked.remove(&id);
+            if s.lock_holder == Some(id) {
+                s.lock_holder = None;
+            }
+            if s.publish_holder == Some(id) {
+                s.publish_holder = None;
+            }
+            ctl.cv.notify_all();
+            (id, killed, r.is_err() && !killed)
+        }));
+    }
+    // the scheduler
+    let mut trace: Vec<String> = Vec::new();
+    let mut steps = 0;
+    let max_steps = 400;
+    let mut stuck = false;
+    let mut killed_any = false;
+    loop {
+        let mut s = ctl.m.lock().unwrap();
+        // wait until every live, not-done actor is parked
+        let deadline = std::time::Instant::now() + Duration::from_secs(20);
+        loop {
+            // a release (or a kill) that its actor has not consumed yet is still in flight
+            let in_flight = s.released.is_some() || s.kill.iter().any(|a| !s.done.contains(a));
+            let waiting: Vec<u32> = if in_flight { vec![u32::MAX] } else { s.live.iter().filter(|a| !s.done.contains(a) && !s.parked.contains_key(a)).cloned().collect() };
+            // an actor blocked on the real build lock (released past lock.before while another holds it) cannot park
+            if waiting.is_empty() {
+                break;
+            }
+            let (g, to) = ctl.cv.wait_timeout(s, Duration::from_millis(200)).unwrap();
+            s = g;
+            if to.timed_out() && std::time::Instant::now() > deadline {
+                stuck = true;
+                break;
+            }
+        }
+        if stuck {
+            break;
+        }
+        if s.live.iter().all(|a| s.done.contains(a)) {
+            break;
+        }
+        // everyone is parked: the published sidecar must be whole
+        let parked_snapshot = s.parked.clone();
+        let lock_holder = s.lock_holder;
+        let publish_holder = s.publish_holder;
+        drop(s);
+        if initial != "stale-sidecar" || steps > 0 {
+            match published_invariant(&path, &rg_rows) {
+                Ok(true) => out.bump("probe.published_sidecar_seen_whole"),
+                Ok(false) => {}
+                Err(e) => {
+                    if !(initial == "stale-sidecar" && e.contains("not a complete IPC")) {
+                        out.violations.push(viol("no-partial-sidecar-visible", "partial-sidecar-published", vec![format!("initial:{initial}")], e, json!({"trace": trace})));
+                    }
+                }
+            }
+        }
+        // never release an actor into a lock another parked actor holds
+        let mut cands: Vec<u32> = parked_snapshot
+            .iter()
+            .filter(|(_, site)| !(**site == "ipc.lock.before" && lock_holder.is_some()) && !(**site == "ipc.build.before_publish" && publish_holder.is_some()))
+            .map(|(a, _)| *a)
+            .collect();
+        if cands.is_empty() {
+            stuck = true;
+            break;
+        }
+        cands.sort();
+        let pick = *rng.pick(&cands);
+        let site = parked_snapshot[&pick];
+        let foreign = specs.iter().find(|a| a.id == pick).unwrap().foreign_pid.is_some();
+        // a foreign process may die at any point of a build
+        let kill = foreign && site.starts_with("ipc.build.") && rng.chance(1, 12);
+        trace.push(format!("{pick}{}@{site}{}", if foreign { "f" } else { "" }, if kill { "!KILL" } else { "" }));
+        let mut s = ctl.m.lock().unwrap();
+        if kill {
+            s.kill.insert(pick);
+            killed_any = true;
+            out.bump("fault.builder_killed.armed");
+            out.bump("fault.builder_killed.fired");
+        } else {
+            s.released = Some(pick);
+        }
+        ctl.cv.notify_all();
+        drop(s);
+        steps += 1;
+        if steps > max_steps {
+            stuck = true;
+            break;
+        }
+    }
+    if stuck {
+        // release everything so threads can finish; no verdict from a stuck controller
+        let mut s = ctl.m.lock().unwrap();
+        let live: Vec<u32> = s.live.iter().cloned().collect();
+        s.live.clear();
+        for a in live {
+            s.kill.insert(a);
+        }
+        ctl.cv.notify_all();
+        drop(s);
+        out.bump("n.controller_stuck");
+    }
+    let mut actor_panics = 0;
+    for h in handles {
+        if let Ok((_, _killed, panicked)) = h.join() {
+            if panicked {
+                actor_panics += 1;
+            }
+        }
+    }
+    park::attach(None);
+    query_engine::verif::knobs::clear();
+    // ---- oracle: every reader's every query equals the sidecar-off answer
+    let feats_base = vec![format!("initial:{initial}"), format!("mode:{}", if mode == 2 { "build" } else { "auto" }), format!("strings:{}", ["few", "unique", "wide"][string_kind as usize])];
+    if !stuck {
+        if actor_panics > 0 {
+            out.violations.push(viol("no-wrong-answer", "actor-panicked", feats_base.clone(), format!("{actor_panics} actor thread(s) panicked inside the engine"), json!({"trace": trace})));
+        }
+        for (id, qi, got) in results.lock().unwrap().iter() {
+            if *qi == usize::MAX {
+                out.violations.push(viol("no-wrong-answer", "register-failed", feats_base.clone(), format!("actor {id}: register_parquet failed: {:?}", got.brief()), json!({"trace": trace})));
+                continue;
+            }
+            let st = Stmt { sql: QUERIES[*qi].to_string(), family: "sidecar", order_keys: vec![], tables: vec![], features: vec![] };
+            let want = &expected[*qi];
+            let bad = match (want, got) {
+                (Outcome::Rows(_), Outcome::Rows(_)) => compare(&st, want, got).err(),
+                (Outcome::Rows(_), Outcome::Err { class, msg }) => Some((format!("error-instead-of-rows:{class}"), msg.clone())),
+                _ => None,
+            };
+            if let Some((sym, d)) = bad {
+                let foreign = specs.iter().find(|a| a.id == *id).unwrap().foreign_pid.is_some();
+                let mut f = feats_base.clone();
+                f.push(format!("reader:{}", if foreign { "other-process" } else { "this-process" }));
+                f.push(format!("builders:{}", if specs.iter().any(|a| a.foreign_pid.is_some()) { "cross-process" } else { "in-process" }));
+                if killed_any {
+                    f.push("builder-killed".into());
+                }
+                if let Outcome::Err { msg, .. } = got {
+                    f.push(format!("err:{}", crate::cluster::runs::err_token(msg)));
+                }
+                out.violations.push(viol("no-wrong-answer", if sym.starts_with("error") { "error-instead-of-rows" } else { "wrong-rows" }, f,
+                    format!("actor {id} `{}`: {d}", QUERIES[*qi]), json!({"trace": trace, "actors": specs.iter().map(|a| json!({"id": a.id, "foreign_pid": a.foreign_pid, "queries": a.queries})).collect::<Vec<_>>()})));
+            }
+        }
+        let kinds: String = trace.iter().map(|t| t.split('@').nth(1).unwrap_or("")).collect::<Vec<_>>().join(",");
+        out.case_hashes.push(fnv(kinds.as_bytes()) ^ fnv(initial.as_bytes()));
+        if trace.iter().any(|t| t.contains("ipc.build.final_removed")) && trace.iter().any(|t| t.contains("ipc.read.")) {
+            out.bump("probe.reader_and_publisher_interleaved");
+        }
+        if specs.iter().filter(|a| a.foreign_pid.is_some()).count() >= 2 {
+            out.bump("probe.two_foreign_builders");
+        }
+    }
+    out.sample = Some(json!({"initial": initial, "actors": specs.iter().map(|a| json!({"id": a.id, "foreign_pid": a.foreign_pid})).collect::<Vec<_>>(), "trace": trace.iter().take(60).collect::<Vec<_>>()}));
+    out.log_hash = fnv(trace.join(" ").as_bytes()) ^ fnv(format!("{}", out.violations.len()).as_bytes());
+    let _ = std::fs::remove_dir_all(&root);
+    let mut seen = BTreeSet::new();
+    out.violations.retain(|v| seen.insert((v.clause.clone(), v.symptom.clone(), v.features.clone())));
+    out
+}
